@@ -20,7 +20,8 @@ THEOREMS = ["Privacy.hidden_inherits", "Output.hidden_inherits", "Output.hidden_
             "Output.private_marked_childlist", "Output.private_marked_sidebar", "Output.private_marked_moduleIndex",
             "Output.private_marked_allDocuments", "Output.private_marked_nameIndex", "Output.classIndex_marker",
             "Output.classNodePrivate_sound", "Output.ctxPrivate_of_private",
-            "Output.no_trace_texts_partial", "Output.no_trace_texts_counterexample",
+            "Output.no_trace_texts_partial", "Output.no_trace_texts_counterexample", "Output.no_trace_named_file_partial",
+            "Output.no_trace_alias_counterexample", "Output.private_marked_undoc_counterexample",
             "Output.no_trace_counterexample_old", "Output.no_trace_counterexample_root_old"]
 RULE = ("same runs as C11 (scenario projects: hidden base of a visible class, hidden module imported from, hidden member "
         "overridden and cross-referenced, private objects at every level and by rule, hidden roots, hidden nested classes "
@@ -49,6 +50,11 @@ ASSUMPTIONS = [
     "zope.interface 'from' notes and extension-provided extra_info are not generated (unguarded in the code, see notes)",
 ]
 PARTIAL = {
+    "Output.no_trace_named_file_partial": "a file named <qualified name>.html exists only for a visible object - or it is the single-root "
+                                          "alias symlink (no_trace_alias_counterexample: hidden single root; open finding "
+                                          "hidden-trace:page-file-alias)",
+    "Output.private_marked": "the 9 listing rows the property names; undoccedSummary.html entries carry no marker at all "
+                             "(private_marked_undoc_counterexample; open finding private-unmarked:undocumented-summary)",
     "Output.no_trace_texts_partial": "the unlinked root nodes of classIndex.html, under: no listed class has an invisible base or an "
                                      "unresolved base expression naming an invisible object (counterexample: "
                                      "no_trace_texts_counterexample; open finding hidden-trace:classindex-root-name). "
@@ -60,7 +66,9 @@ EXPLANATION = ("The producer table of DESIGN C12 is a Lean function from the obj
                "the only remaining mention of a hidden object is the unlinked base node of classIndex.html: open finding.")
 
 LISTING_NAMES = {"table": "member-table", "detail": "member-details", "sidebar": "sidebar", "sidebar-inherited": "sidebar",
-                 "modindex": "module-index", "alldocs": "all-documents"}
+                 "modindex": "module-index", "alldocs": "all-documents", "undoc": "undocumented-summary"}
+# listings whose marker is the object's own privacy (undoccedSummary.html would use summary.isPrivate: the object or a container)
+OWN_PRIVACY_LISTINGS = {"table", "detail", "sidebar", "sidebar-inherited", "modindex", "alldocs"}
 
 
 def nontrivial(res) -> bool:
@@ -104,6 +112,10 @@ def oracle(ctx: Ctx, res) -> None:
             fn = oc.unquote(o["url"])
             if fn in files and fn != "index.html":
                 ctx.fail("hidden-trace:page-file", payload, "hidden %s has a page %s" % (o["full"], fn))
+            # a file named after the object, whatever its address: the single-root alias <root>.html -> index.html
+            named = o["full"] + ".html"
+            if named != fn and (named in files or any(ln == named for ln, to, ok in cr["symlinks"])):
+                ctx.fail("hidden-trace:page-file-alias", payload, "a file %s exists for hidden %s" % (named, o["full"]))
         if o["kind"] in "FA" and o["parent"] is not None:
             par = t.objs[o["parent"]]
             pfn = oc.unquote(par["url"]) if par.get("url") and par["kind"] in "PMC" else None
@@ -125,6 +137,12 @@ def oracle(ctx: Ctx, res) -> None:
     # -- listing cells showing the qualified name without a link
     for fn, pg in cr["pages"].items():
         for where, text in pg["texts"]:
+            if where == "interfaceinfo":
+                # "overrides pkg.mod.V.hmeth" as plain text after taglink refused the link: counted, not a violation (the
+                # property lists pages, anchors, rows of tables / sidebars / indexes, search and inventory entries, hyperlinks)
+                if any(w in hidden_full for w in text.split()):
+                    ctx.count("plain-text-mention:overrides-note")
+                continue
             if text in hidden_full:
                 ctx.fail("hidden-trace:%s-name" % where, payload, "%s shows the name of hidden %s" % (fn, text))
     # -- search documents and inventory
@@ -158,7 +176,7 @@ def oracle(ctx: Ctx, res) -> None:
     pub = {oc.canon_url(o["url"]): o for o in t.objs if o["privacy"] == "U" and t.documented(o) and o["url"] is not None}
     for fn, pg in cr["pages"].items():
         for kind, ref, marked, extra in pg["entries"]:
-            if kind in LISTING_NAMES and marked:
+            if kind in OWN_PRIVACY_LISTINGS and marked:
                 key = pg["page"] + "#" + oc.enc(ref) if kind == "detail" else oc.abs_ref(fn, ref)
                 if key in pub:
                     ctx.fail("public-marked-private:" + LISTING_NAMES[kind], payload,
